@@ -1043,9 +1043,24 @@ func (b *bitstream) readN(n uint64) ([]byte, error) {
 		return nil, nil
 	}
 
-	bs := make([]byte, n)
-	actual, err := io.ReadFull(b.in, bs)
-	b.pos += uint64(actual)
+	// The length comes from the input: allocate as the bytes arrive rather than up front,
+	// so that a few bytes claiming a huge length cannot exhaust memory.
+	var bs []byte
+	var err error
+	for uint64(len(bs)) < n && err == nil {
+		m := n - uint64(len(bs))
+		if m > readChunkSize {
+			m = readChunkSize
+		}
+
+		start := len(bs)
+		bs = append(bs, make([]byte, m)...)
+
+		var actual int
+		actual, err = io.ReadFull(b.in, bs[start:])
+		b.pos += uint64(actual)
+		bs = bs[:start+actual]
+	}
 
 	if err == io.EOF || err == io.ErrUnexpectedEOF {
 		return nil, &UnexpectedEOFError{b.pos}
@@ -1056,6 +1071,9 @@ func (b *bitstream) readN(n uint64) ([]byte, error) {
 
 	return bs, nil
 }
+
+// readChunkSize bounds how much readN allocates ahead of the data it has actually read.
+const readChunkSize = 64 * 1024
 
 // Read1 reads the next byte of input from the underlying stream, returning
 // an UnexpectedEOFError if it's an EOF.
